@@ -105,7 +105,12 @@ Inject(sd, base, k) ==
          InsertSomewhere(sd, base, [NewTable("", "zz_new", "", <<>>) EXCEPT !.note = IF Coin(sd, 915, 50) THEN "only a note" ELSE ""])
     [] k = "RefNoTable" ->
          LET good == [schema |-> t.schema, table |-> t.name, cols |-> <<t.cols[1].name>>]
-             bad == [schema |-> IF Coin(sd, 916, 50) THEN "" ELSE "s1", table |-> "zz_missing", cols |-> <<"id">>]
+             \* near miss: a table of that NAME exists, but only in another schema (addressed bare or as public.name it is missing)
+             elsewhere == SelectSeq(tabs, LAMBDA x : Locate(tabs, "", x.name, FALSE) = 0)
+             nm == PickPos(sd, 930, elsewhere)
+             bad == IF elsewhere # <<>> /\ Coin(sd, 931, 50)
+                    THEN [schema |-> IF Coin(sd, 932, 50) THEN "" ELSE "public", table |-> nm.name, cols |-> <<nm.cols[1].name>>]
+                    ELSE [schema |-> IF Coin(sd, 916, 50) THEN "" ELSE "s1", table |-> "zz_missing", cols |-> <<"id">>]
              left == Coin(sd, 917, 50)
          IN InsertSomewhere(sd, base, [d |-> "ref", name |-> "", left |-> IF left THEN bad ELSE good, type |-> Pick(sd, 918, RefKinds),
                                          right |-> IF left THEN good ELSE bad, onupdate |-> "", ondelete |-> "", comment |-> ""])
@@ -130,8 +135,11 @@ Inject(sd, base, k) ==
                                                          ELSE <<[k |-> "col", v |-> t.cols[1].name], [k |-> "col", v |-> "zz_nocol"]>>,
                                                 name |-> "", unique |-> FALSE, pk |-> FALSE, type |-> "", note |-> "", comment |-> ""])]
     [] k = "GroupNoTable" ->
+         LET elsewhere == SelectSeq(tabs, LAMBDA x : Locate(tabs, "", x.name, FALSE) = 0) IN
          InsertSomewhere(sd, base, [d |-> "group", name |-> "zz_g",
-                                      items |-> <<[schema |-> IF Coin(sd, 924, 50) THEN "" ELSE SchemaOf(t.schema), table |-> "zz_missing"]>>,
+                                      items |-> <<IF elsewhere # <<>> /\ Coin(sd, 933, 50)
+                                                  THEN [schema |-> "", table |-> PickPos(sd, 934, elsewhere).name]
+                                                  ELSE [schema |-> IF Coin(sd, 924, 50) THEN "" ELSE SchemaOf(t.schema), table |-> "zz_missing"]>>,
                                       note |-> "", color |-> "", comment |-> ""])
 
 VARIABLE kind
